@@ -77,6 +77,7 @@ func NewConfig(prop string, tier string, r *core.Rand) Config {
 	case "C05":
 		c.PInvalid = 0.5
 		c.TxMean = 5
+		c.Metamorphic = r.Chance(0.5)
 		if r.Chance(0.5) {
 			c.EVM = true
 			c.KindW["deploy"], c.KindW["call"] = 1, 3
@@ -170,8 +171,11 @@ func NewConfig(prop string, tier string, r *core.Rand) Config {
 		c.QueryMean = 0.3
 		c.Noisy = c.Followers > 0
 	}
-	if (prop == "C01" || prop == "C07" || prop == "C10" || prop == "C04") && r.Chance(0.3) {
+	if (prop == "C01" || prop == "C07" || prop == "C04") && r.Chance(0.3) {
 		c.PCrash = 0.05
+	}
+	if prop == "C10" {
+		c.PCrash = []float64{0.05, 0.15}[r.Intn(2)] // "including restarts": also crashes at ABCI boundaries of set-changing blocks
 	}
 	// swarm: in some worlds of any property the block producer itself serves mempool/query traffic
 	// (then differences show up against the model with precise attribution) next to a quiet follower
@@ -468,6 +472,33 @@ func (g *Generator) intent(h int64) Intent {
 		} else {
 			it.To = fmt.Sprintf("a%d", g.pickActor())
 		}
+	}
+	if (k == "stake" || k == "delegate") && g.w.leader().State.Validators.Size() >= 3 && g.r.Chance(0.3) {
+		// probe the staking limits: choose the power so that the delegatee's share of the validators'
+		// total power lands right around one of the ratio limits (decisions there depend on parameters
+		// that every replica - also a restarted one - must hold identically)
+		if a, ok := g.w.resolveTarget(it.To); ok {
+			base := int64(0)
+			for _, v := range g.w.leader().State.NextValidators.Validators {
+				base += v.VotingPower
+			}
+			t := int64(0)
+			if d := m.Delegs[a]; d != nil {
+				t = d.Total()
+			}
+			rs := []int64{m.Gov.MaxIndividualStakeRatio, m.Gov.MaxUpdatableStakeRatio, int64(g.r.Range(5, 60))}
+			r := rs[g.r.Intn(len(rs))] + int64(g.r.Range(-2, 2))
+			if r > 0 && r < 95 && base > 0 {
+				d := (r*base - 100*t) / (100 - r)
+				d += int64(g.r.Range(-1, 1))
+				if d >= 1 && d < 1_000_000 {
+					it.Amt = fmt.Sprintf("pow:%d", d)
+					g.w.Probes.Hit("gen.limit-probe")
+				}
+			}
+		}
+	}
+	switch k {
 	case "unstake":
 		ls := g.liveStakes()
 		if len(ls) == 0 {
@@ -588,6 +619,15 @@ func (g *Generator) intent(h int64) Intent {
 		it = Intent{Kind: "call", Actor: g.richActor(), To: fmt.Sprintf("c%d", ci), Data: hex.EncodeToString(g.calldata()), Gas: fmt.Sprintf("n:%d", g.r.Range(30_000, 800_000))}
 		if g.r.Chance(0.5) {
 			it.Amt = fmt.Sprintf("n:%d", g.r.Range(1, 5_000_000))
+		}
+		if g.r.Chance(0.04) {
+			// a gas-hungry call (loop flag set): the block gas pool must be whole again in the next block
+			d := g.calldata()
+			if len(d) >= 5*32 {
+				d[5*32-1] = 1
+				it.Data = hex.EncodeToString(d)
+				it.Gas = fmt.Sprintf("n:%d", g.r.Range(6_000_000, 20_000_000))
+			}
 		}
 		if g.r.Chance(0.15) {
 			// a plain transfer to the contract address
@@ -860,6 +900,9 @@ func (g *Generator) NextBlock(h int64) BlockStep {
 		}
 		for _, pt := range points {
 			f := Fault{Kind: "crashfork", Replica: 0, At: pt, Follow: 2}
+			if pt == "pre" || pt == "commit.post" || pt == "end" {
+				f.Follow = 14 // some effects of a lossy recovery only surface at the next reward-hash height
+			}
 			if g.c.CrashAgain && pt != "commit.post" && pt != "mp.update" && pt != "end" && g.r.Chance(0.5) {
 				// the interrupted block will be replayed on recovery: crash again inside that replay
 				f.Again = replayPts[g.r.Intn(len(replayPts))]
